@@ -69,6 +69,14 @@ type Manager struct {
 	peerInfos   map[string]*PeerInfo // Address -> PeerInfo
 	reconnector *Reconnector
 
+	// tearingDown counts the disconnect callbacks currently running per peer, and
+	// teardownDone (on mu) is signalled when one finishes. The owner cleans up its
+	// per-peer state (routes, relays) by peer ID in that callback, so a replacement
+	// connection is registered only after the cleanup of the old one has finished -
+	// otherwise the cleanup would remove state that already belongs to the new one.
+	tearingDown  map[identity.AgentID]int
+	teardownDone *sync.Cond
+
 	ctx    context.Context
 	cancel context.CancelFunc
 	wg     sync.WaitGroup
@@ -92,6 +100,9 @@ func NewManager(cfg ManagerConfig) *Manager {
 		ctx:        ctx,
 		cancel:     cancel,
 	}
+
+	m.tearingDown = make(map[identity.AgentID]int)
+	m.teardownDone = sync.NewCond(&m.mu)
 
 	// Create reconnector with callback to this manager
 	m.reconnector = NewReconnector(cfg.ReconnectConfig, m.handleReconnect)
@@ -197,6 +208,12 @@ func (m *Manager) registerConnection(conn *Connection) {
 	default:
 	}
 
+	// Wait until the disconnect callback of a previous connection to this peer has
+	// finished (see tearingDown)
+	for m.tearingDown[conn.RemoteID] > 0 {
+		m.teardownDone.Wait()
+	}
+
 	// Check if we already have a connection to this peer
 	if _, ok := m.peers[conn.RemoteID]; ok {
 		// Keep the existing connection, close the new one
@@ -233,6 +250,10 @@ func (m *Manager) handleDisconnect(conn *Connection, err error) {
 	// peer may have reconnected in between). The owner cleans up routes and relays by
 	// peer ID, so it must not be told - that state belongs to the live connection.
 	replaced := ok && existing != conn
+	notify := !replaced && m.cfg.OnPeerDisconnect != nil && conn.disconnectNotified.CompareAndSwap(false, true)
+	if notify {
+		m.tearingDown[conn.RemoteID]++
+	}
 
 	// Find the peer info using the config address (original dial address).
 	// This is necessary because RemoteAddr() returns the resolved IP,
@@ -249,8 +270,14 @@ func (m *Manager) handleDisconnect(conn *Connection, err error) {
 	}
 
 	// Notify callback (once per connection)
-	if m.cfg.OnPeerDisconnect != nil && conn.disconnectNotified.CompareAndSwap(false, true) {
+	if notify {
 		m.cfg.OnPeerDisconnect(conn, err)
+		m.mu.Lock()
+		if m.tearingDown[conn.RemoteID]--; m.tearingDown[conn.RemoteID] <= 0 {
+			delete(m.tearingDown, conn.RemoteID)
+		}
+		m.teardownDone.Broadcast()
+		m.mu.Unlock()
 	}
 
 	// Schedule reconnect if persistent, using the config address
